@@ -26,6 +26,8 @@ pub enum Api {
     /// read_parallel + ReusableReader over the real fastq / fasta reader (record-set level)
     ReusableFastq,
     ReusableFasta,
+    /// parallel_records() over the real fastq reader
+    Records,
 }
 
 #[derive(Serialize, Deserialize, Clone, Debug, PartialEq)]
@@ -81,6 +83,10 @@ pub struct ParScn {
     /// explicit schedule (task ids); when present it replaces the seeded scheduler
     #[serde(default)]
     pub schedule: Option<Vec<u32>>,
+    /// GenericInit only: reader_init blocks until the caller's side signals: 1 = the first
+    /// dataset_init call, 2 = the consumer function when it starts
+    #[serde(default)]
+    pub reader_waits_for: u8,
 }
 
 #[derive(Clone, Debug, PartialEq)]
@@ -168,6 +174,30 @@ impl Default for GenSet {
 
 #[derive(Debug, Clone, PartialEq)]
 pub struct GenErr(pub usize);
+
+/// per-record output of 4 KiB (size thresholds on recycled outputs are reachable with a few
+/// hundred records); `Default` creations are counted like `record_data_init` calls
+pub struct BigOut {
+    pub v: u64,
+    pub pad: [u64; 511],
+}
+
+impl BigOut {
+    pub fn raw() -> BigOut {
+        BigOut { v: 0, pad: [0; 511] }
+    }
+}
+
+impl Default for BigOut {
+    fn default() -> BigOut {
+        DEFAULT_HIST.with(|h| {
+            if let Some(h) = h.borrow().as_ref() {
+                h.lock().unwrap().record_inits += 1;
+            }
+        });
+        BigOut::raw()
+    }
+}
 
 pub struct GenReader {
     next: usize,
@@ -490,6 +520,11 @@ fn body(scn: &ParScn, hist: &SharedHist) {
             let fail_reader = scn.fail_reader_init;
             let fail_ds = scn.fail_dataset_init_at;
             let (n_sets, err_at) = (scn.n_sets, scn.err_at);
+            let (sig_tx, sig_rx) = seq_io_verif_rt::mpsc::channel::<()>();
+            let wait_rx = if scn.reader_waits_for > 0 { Some(sig_rx) } else { None };
+            let sig_ds = if scn.reader_waits_for == 1 { Some(sig_tx.clone()) } else { None };
+            let sig_fn = if scn.reader_waits_for == 2 { Some(sig_tx.clone()) } else { None };
+            drop(sig_tx);
             let r: Result<(), InitErr> = parallel::read_parallel_init::<_, InitErr, _, InitErr, _, _, InitErr, _, _, _>(
                 nt,
                 q,
@@ -497,6 +532,10 @@ fn body(scn: &ParScn, hist: &SharedHist) {
                     note_activity(&h0, "reader_init");
                     h0.lock().unwrap().reader_inits += 1;
                     rt::yield_now();
+                    if let Some(rx) = wait_rx {
+                        // a lazily initialised reader that needs something the caller provides
+                        let _ = rx.recv();
+                    }
                     if fail_reader {
                         Err(InitErr::Reader)
                     } else {
@@ -505,6 +544,9 @@ fn body(scn: &ParScn, hist: &SharedHist) {
                 },
                 move || {
                     note_activity(&h3, "dataset_init");
+                    if let Some(tx) = &sig_ds {
+                        let _ = tx.send(());
+                    }
                     let k = {
                         let mut h = h3.lock().unwrap();
                         h.dataset_inits += 1;
@@ -529,7 +571,12 @@ fn body(scn: &ParScn, hist: &SharedHist) {
                     h1.lock().unwrap().works_finished += 1;
                     o
                 },
-                |rsets| {
+                // (`move`: the sender must die with the closure if the call returns before running it)
+                move |rsets| {
+                    let h2 = h2;
+                    if let Some(tx) = sig_fn {
+                        let _ = tx.send(());
+                    }
                     consume_sets(scn, &h2, rsets, |d: &mut GenSet, o| Arrival::Set { tag: d.tag, content: d.content, out: if o == gen_out(d.content.unwrap_or(usize::MAX), &d.payload) { o } else { u64::MAX }, recs: vec![] });
                 },
             );
@@ -547,18 +594,18 @@ fn body(scn: &ParScn, hist: &SharedHist) {
                 _ => usize::MAX,
             };
             let mut got = 0usize;
-            let work = move |rec: fasta::RefRecord, out: &mut u64, tag: &mut u32| {
+            let work = move |rec: fasta::RefRecord, out: &mut BigOut, tag: &mut u32| {
                 note_activity(&h1, "worker");
                 stall(ws);
-                *out = rec_hash(rec.head(), &rec.owned_seq());
+                out.v = rec_hash(rec.head(), &rec.owned_seq());
                 let mut h = h1.lock().unwrap();
                 h.work_events.push((*tag, rec_index(rec.head())));
                 h.tags.insert(*tag);
             };
-            let func = |rec: fasta::RefRecord, out: &mut u64, tag: &mut u32| -> Option<usize> {
+            let func = |rec: fasta::RefRecord, out: &mut BigOut, tag: &mut u32| -> Option<usize> {
                 stall(cs);
                 let want = rec_hash(rec.head(), &rec.owned_seq());
-                h2.lock().unwrap().arrivals.push(Arrival::Rec { idx: rec_index(rec.head()), out: if *out == want { *out } else { 0 }, tag: *tag });
+                h2.lock().unwrap().arrivals.push(Arrival::Rec { idx: rec_index(rec.head()), out: if out.v == want { out.v } else { 0 }, tag: *tag });
                 got += 1;
                 if got >= limit {
                     h2.lock().unwrap().consumer_left_early = true;
@@ -569,9 +616,9 @@ fn body(scn: &ParScn, hist: &SharedHist) {
             };
             if scn.api == Api::Fasta {
                 let cap = scn.cap.max(3);
-                let r = parallel::parallel_fasta(fasta::Reader::with_capacity(src, cap), nt, q, move |rec, out: &mut u64| work(rec, out, &mut 0), {
+                let r = parallel::parallel_fasta(fasta::Reader::with_capacity(src, cap), nt, q, move |rec, out: &mut BigOut| work(rec, out, &mut 0), {
                     let mut func = func;
-                    move |rec, out: &mut u64| func(rec, out, &mut 0)
+                    move |rec, out: &mut BigOut| func(rec, out, &mut 0)
                 });
                 format!("{:?}", r)
             } else {
@@ -606,7 +653,7 @@ fn body(scn: &ParScn, hist: &SharedHist) {
                         if Some(k) == fail_rec {
                             Err(InitErr::Record(k))
                         } else {
-                            Ok(0u64)
+                            Ok(BigOut::raw())
                         }
                     },
                     move || {
@@ -640,18 +687,18 @@ fn body(scn: &ParScn, hist: &SharedHist) {
                 _ => usize::MAX,
             };
             let mut got = 0usize;
-            let work = move |rec: fastq::RefRecord, out: &mut u64, tag: &mut u32| {
+            let work = move |rec: fastq::RefRecord, out: &mut BigOut, tag: &mut u32| {
                 note_activity(&h1, "worker");
                 stall(ws);
-                *out = rec_hash(rec.head(), rec.seq());
+                out.v = rec_hash(rec.head(), rec.seq());
                 let mut h = h1.lock().unwrap();
                 h.work_events.push((*tag, rec_index(rec.head())));
                 h.tags.insert(*tag);
             };
-            let func = |rec: fastq::RefRecord, out: &mut u64, tag: &mut u32| -> Option<usize> {
+            let func = |rec: fastq::RefRecord, out: &mut BigOut, tag: &mut u32| -> Option<usize> {
                 stall(cs);
                 let want = rec_hash(rec.head(), rec.seq());
-                h2.lock().unwrap().arrivals.push(Arrival::Rec { idx: rec_index(rec.head()), out: if *out == want { *out } else { 0 }, tag: *tag });
+                h2.lock().unwrap().arrivals.push(Arrival::Rec { idx: rec_index(rec.head()), out: if out.v == want { out.v } else { 0 }, tag: *tag });
                 got += 1;
                 if got >= limit {
                     h2.lock().unwrap().consumer_left_early = true;
@@ -662,9 +709,9 @@ fn body(scn: &ParScn, hist: &SharedHist) {
             };
             if scn.api == Api::Fastq {
                 let cap = scn.cap.max(3);
-                let r = parallel::parallel_fastq(fastq::Reader::with_capacity(src, cap), nt, q, move |rec, out: &mut u64| work(rec, out, &mut 0), {
+                let r = parallel::parallel_fastq(fastq::Reader::with_capacity(src, cap), nt, q, move |rec, out: &mut BigOut| work(rec, out, &mut 0), {
                     let mut func = func;
-                    move |rec, out: &mut u64| func(rec, out, &mut 0)
+                    move |rec, out: &mut BigOut| func(rec, out, &mut 0)
                 });
                 format!("{:?}", r)
             } else {
@@ -699,7 +746,7 @@ fn body(scn: &ParScn, hist: &SharedHist) {
                         if Some(k) == fail_rec {
                             Err(InitErr::Record(k))
                         } else {
-                            Ok(0u64)
+                            Ok(BigOut::raw())
                         }
                     },
                     move || {
@@ -758,6 +805,43 @@ fn body(scn: &ParScn, hist: &SharedHist) {
                 },
             );
             "()".into()
+        }
+        Api::Records => {
+            use fastq::Record;
+            let src = ChunkSource::new(data, &scn.script, scn.io_fault_at, Some(hist.clone()));
+            let reader = fastq::Reader::with_capacity(src, scn.cap.max(3));
+            let h1 = hist.clone();
+            let h2 = hist.clone();
+            let ws = scn.worker_stall;
+            let cs = scn.consumer_stall;
+            let limit = match scn.consumer {
+                Consumer::StopAfter(k) => k.max(1),
+                _ => usize::MAX,
+            };
+            let mut got = 0usize;
+            let r = parallel::parallel_records(
+                reader,
+                nt,
+                q,
+                move |rec: fastq::RefRecord, out: &mut BigOut| {
+                    note_activity(&h1, "worker");
+                    stall(ws);
+                    out.v = rec_hash(rec.head(), rec.seq());
+                },
+                |rec: fastq::RefRecord, out: &BigOut| -> Option<usize> {
+                    stall(cs);
+                    let want = rec_hash(rec.head(), rec.seq());
+                    h2.lock().unwrap().arrivals.push(Arrival::Rec { idx: rec_index(rec.head()), out: if out.v == want { out.v } else { 0 }, tag: 0 });
+                    got += 1;
+                    if got >= limit {
+                        h2.lock().unwrap().consumer_left_early = true;
+                        Some(got)
+                    } else {
+                        None
+                    }
+                },
+            );
+            format!("{:?}", r)
         }
         Api::ReusableFasta => {
             use fasta::Record;
@@ -991,11 +1075,11 @@ pub fn gen_input(rng: &Rng, fasta: bool, n: usize, invalid_at: Option<usize>) ->
 
 pub fn gen_scn(id: &str, rng: &Rng, thorough: bool) -> ParScn {
     let api = match id {
-        "C16" => *rng.pick(&[0u8, 1, 1, 5, 6, 6, 7]),
-        "C15" => *rng.pick(&[0u8, 1, 1, 2, 3, 4, 5, 6, 7, 1, 4, 5]),
-        _ => rng.below(8) as u8,
+        "C16" => *rng.pick(&[0u8, 1, 1, 5, 6, 6, 7, 4, 8]),
+        "C15" => *rng.pick(&[0u8, 1, 1, 2, 3, 4, 5, 6, 7, 1, 4, 5, 8]),
+        _ => rng.below(9) as u8,
     };
-    let api = [Api::Generic, Api::GenericInit, Api::Fasta, Api::Fastq, Api::FastaInit, Api::FastqInit, Api::ReusableFastq, Api::ReusableFasta][api as usize].clone();
+    let api = [Api::Generic, Api::GenericInit, Api::Fasta, Api::Fastq, Api::FastaInit, Api::FastqInit, Api::ReusableFastq, Api::ReusableFasta, Api::Records][api as usize].clone();
     let generic = matches!(api, Api::Generic | Api::GenericInit);
     let init_api = matches!(api, Api::GenericInit | Api::FastaInit | Api::FastqInit);
     let set_level = matches!(api, Api::Generic | Api::GenericInit | Api::ReusableFastq | Api::ReusableFasta);
@@ -1028,6 +1112,7 @@ pub fn gen_scn(id: &str, rng: &Rng, thorough: bool) -> ParScn {
         },
         sched_seed: rng.next_u64(),
         schedule: None,
+        reader_waits_for: 0,
     };
     let mut n_recs = 0;
     if !generic {
@@ -1057,7 +1142,16 @@ pub fn gen_scn(id: &str, rng: &Rng, thorough: bool) -> ParScn {
             _ => Consumer::StopAfter(if set_level { rng.small(n_sets + 1) } else { 1 + rng.small(n_recs) }),
         },
     };
-    if matches!(id, "C08" | "C16") && generic && rng.chance(1, 300) {
+    if matches!(id, "C07" | "C08" | "C16") && generic && rng.chance(1, 6000) {
+        // a queue of thousands of slots (channel capacity clamps) with an input of a thousand sets
+        scn.queue_len = rng.range(2050, 4500);
+        scn.n_sets = rng.range(1024, scn.queue_len - 1026);
+        scn.n_threads = rng.range(1, 2) as u32;
+        scn.worker_stall = 0;
+        scn.consumer_stall = 0;
+        scn.err_at = None;
+        scn.consumer = if rng.chance(2, 3) { Consumer::Drain } else { Consumer::Never };
+    } else if matches!(id, "C08" | "C16") && generic && rng.chance(1, 300) {
         // a long queue (channel capacities, preallocation limits) with an input of comparable length
         scn.queue_len = rng.range(100, 300);
         scn.n_sets = rng.range(64, 260);
@@ -1065,6 +1159,41 @@ pub fn gen_scn(id: &str, rng: &Rng, thorough: bool) -> ParScn {
         scn.worker_stall = 0;
         scn.consumer_stall = 0;
         scn.consumer = if rng.chance(2, 3) { Consumer::Drain } else { Consumer::StopAfter(rng.small(scn.n_sets)) };
+    }
+    if matches!(id, "C08" | "C15") && scn.api == Api::GenericInit && rng.chance(1, 6) {
+        scn.reader_waits_for = rng.range(1, 2) as u8;
+    }
+    if id == "C16" && matches!(scn.api, Api::FastaInit | Api::FastqInit) && rng.chance(1, 12) {
+        // batches that alternate between hundreds of tiny records and one big record: recycled
+        // per-record outputs are alternately far too many and far too few
+        let fasta_api = scn.api == Api::FastaInit;
+        let mut inp = String::new();
+        let mut i = 0;
+        for _ in 0..rng.range(3, 6) {
+            for _ in 0..rng.range(300, 420) {
+                if fasta_api {
+                    inp.push_str(&format!(">r{}\nA\n", i));
+                } else {
+                    inp.push_str(&format!("@r{}\nA\n+\nI\n", i));
+                }
+                i += 1;
+            }
+            let big = "C".repeat(rng.range(3300, 3900));
+            if fasta_api {
+                inp.push_str(&format!(">r{}\n{}\n", i, big));
+            } else {
+                inp.push_str(&format!("@r{}\n{}\n+\n{}\n", i, &big[..1800], "I".repeat(1800)));
+            }
+            i += 1;
+        }
+        scn.input = inp;
+        scn.cap = 4096;
+        scn.script = vec![];
+        scn.io_fault_at = None;
+        scn.queue_len = rng.range(1, 2);
+        scn.n_threads = rng.range(1, 2) as u32;
+        scn.worker_stall = 0;
+        scn.consumer_stall = 0;
     }
     // C07 also holds for the sets a failing reader produced before its error
     if id == "C07" && generic && rng.chance(1, 3) {
